@@ -398,6 +398,13 @@ def pad(
         fill_value, "fill_value"
     )
 
+    # An unknown boundary option is an error even if no padding turns out to be needed
+    for ax_padding in padding.values():
+        if ax_padding not in _XGCM_BOUNDARY_KWARG_TO_XARRAY_PAD_KWARG:
+            raise ValueError(
+                f"boundary must be one of {list(_XGCM_BOUNDARY_KWARG_TO_XARRAY_PAD_KWARG.keys())}, but got {ax_padding!r}"
+            )
+
     # Exit without padding if all widths are zero
     if padding_width is None or all(
         width == (0, 0) for width in padding_width.values()
